@@ -252,3 +252,45 @@ Lemma refuted_coarse_key :
   snd (run_k (fun _ => 0) [0; 1] None kempty [Ask 1; Ask 2; Report 1 [1]]) = [OProbe 1; ODecide 2 (Flow 1)] /\
   snd (run [0; 1] None empty [Ask 1; Ask 2; Report 1 [1]]) = [OProbe 1; OProbe 2; ORequeue 1 [1]].
 Proof. split; reflexivity. Qed.
+
+(* ---------------- the answer as the token reads it ---------------- *)
+(* with a slice of its own for every decision a token reads what was decided for it, whatever was decided for other
+   tokens in between: every read returns the token's latest decision *)
+Theorem reads_own_decision : forall ops pre t d,
+  ops = pre ++ [ARead t] -> decided pre t None = Some d ->
+  In (t, d) (seen_ (arun true ops)).
+Proof.
+  intros ops pre t d -> Hd. unfold arun. rewrite fold_left_app. cbn [fold_left].
+  assert (G : forall l s acc,
+             (forall c, cell_of (owner s) t = Some c -> nth_error (cells s) c = acc) ->
+             (cell_of (owner s) t = None -> acc = None) ->
+             (forall x c, cell_of (owner s) x = Some c -> c < length (cells s)) ->
+             let s' := fold_left (astep true) l s in
+             (forall c, cell_of (owner s') t = Some c -> nth_error (cells s') c = decided l t acc) /\
+             (cell_of (owner s') t = None -> decided l t acc = None) /\
+             (forall x c, cell_of (owner s') x = Some c -> c < length (cells s'))).
+  { induction l as [|o l IH]; intros s acc H1 H2 H3; cbn [fold_left decided]; [auto|].
+    destruct o as [a dd|a].
+    - apply IH; cbn [astep orb owner cells cell_of].
+      + intros c. destruct (a =? t) eqn:E.
+        * intros Hc. inversion Hc; subst c. rewrite nth_error_app2 by lia. rewrite Nat.sub_diag. reflexivity.
+        * intros Hc. rewrite nth_error_app1 by (eapply H3; eauto). apply H1; exact Hc.
+      + destruct (a =? t) eqn:E; [discriminate|exact H2].
+      + intros x c. rewrite app_length. cbn [length]. destruct (a =? x); [intros Hc; inversion Hc; lia|].
+        intros Hc. specialize (H3 x c Hc). lia.
+    - apply IH; cbn [astep].
+      + destruct (cell_of (owner s) a) as [c|]; [destruct (nth_error (cells s) c)|]; cbn; exact H1.
+      + destruct (cell_of (owner s) a) as [c|]; [destruct (nth_error (cells s) c)|]; cbn; exact H2.
+      + destruct (cell_of (owner s) a) as [c|]; [destruct (nth_error (cells s) c)|]; cbn; exact H3. }
+  destruct (G pre {| cells := []; owner := []; seen_ := [] |} None) as [A [B _]]; cbn; try discriminate; auto.
+  cbn [astep]. destruct (cell_of (owner (fold_left (astep true) pre {| cells := []; owner := []; seen_ := [] |})) t) as [c|] eqn:E.
+  - rewrite (A c eq_refl), Hd. cbn. left. reflexivity.
+  - rewrite (B eq_refl) in Hd. discriminate.
+Qed.
+
+(* one slice for all decisions: token 1 is told flow 0, token 2 is told flow 1 before token 1 gets to read -- token 1
+   leaves on flow 1 *)
+Lemma refuted_shared_answer_slice :
+  seen_ (arun false [ADecide 1 0; ADecide 2 1; ARead 1; ARead 2]) = [(2, 1); (1, 1)] /\
+  seen_ (arun true [ADecide 1 0; ADecide 2 1; ARead 1; ARead 2]) = [(2, 1); (1, 0)].
+Proof. split; reflexivity. Qed.
